@@ -45,6 +45,7 @@ CONSTANTS MaxBr, MaxN, BufSizes, Templates,
           FillBr, FillTemplates,     \* longer branch lists over fewer templates for the fill-driven Split and Zip
           ExtraBr,                   \* branch lists over VarTemplates (shape "pair") / DataTemplates (other shapes)
           Shapes,                    \* shapes of the flow values
+          Classes,                   \* classes of the context objects
 
           CopyMode      \* "deep" (the code), "shallow" / "none": what if the copies were weaker
 
@@ -55,15 +56,15 @@ Seqs(n) == IF n = 0 THEN {<<>>}
 (***************************************************************************)
 (* Operational machine.                                                    *)
 (***************************************************************************)
-VARIABLES brs, N, bs, drv, rq, shape,     \* scenario
+VARIABLES brs, N, bs, drv, rq, shape, cls,     \* scenario
           M,                       \* heap
           src,                     \* the flow values as the producer created them (VRefs)
           pos, orig, active, ind,  \* Split.run: values read, current block, active branches, index
           bst,                     \* per branch: stored VRefs, number of fills, stopped, count of Count.run
           out,                     \* yielded: [b, r |-> VRef, x |-> snapshot when yielded]
           phase
-vars == <<brs, N, bs, drv, rq, shape, M, src, pos, orig, active, ind, bst, out, phase>>
-scen == <<brs, N, bs, drv, rq, shape>>
+vars == <<brs, N, bs, drv, rq, shape, cls, M, src, pos, orig, active, ind, bst, out, phase>>
+scen == <<brs, N, bs, drv, rq, shape, cls>>
 
 InitBst(bb) == [j \in 1..Len(bb) |-> [stored |-> <<>>, nf |-> 0, runcount |-> 0, done |-> FALSE]]
 RECURSIVE FillSeqs(_)
@@ -78,12 +79,14 @@ ElemSub == IF CopyMode = "varshallow" THEN 1 ELSE 0
 RunBrs == Seqs(MaxBr) \cup TSeqs(VarTemplates, ExtraBr)
 PairBrs == RunBrs \cup FillSeqs(FillBr)
 DataBrs == TSeqs(DataTemplates, ExtraBr)
-Init == /\ shape \in Shapes
-        /\ \/ shape = "pair" /\ brs \in PairBrs
-           \/ shape # "pair" /\ brs \in DataBrs
+ClsBrs == TSeqs(NestTemplates, ExtraBr)
+Init == /\ shape \in Shapes /\ cls \in Classes
+        /\ \/ cls = "dict" /\ shape = "pair" /\ brs \in PairBrs
+           \/ cls = "dict" /\ shape # "pair" /\ brs \in DataBrs
+           \/ cls # "dict" /\ shape = "pair" /\ brs \in ClsBrs
         /\ N \in 0..MaxN /\ bs \in BufSizes
         /\ drv \in {"run", "fill", "fillreq", "zip"} /\ rq \in {0, 1}
-        /\ (drv = "run" => rq = 0 /\ (shape # "pair" \/ brs \in RunBrs))
+        /\ (drv = "run" => rq = 0 /\ (shape # "pair" \/ cls # "dict" \/ brs \in RunBrs))
         /\ (drv = "fill" => /\ rq = 0 /\ bs = 1 /\ brs # <<>>
                             /\ \A j \in 1..Len(brs) : IsFC(brs[j]) /\ brs[j].stop = None)
         \* Zip: fill/compute branches (compute at the end) or fill/request branches (request like fillreq)
@@ -138,7 +141,7 @@ ComputeOf(Mm, b, s) ==
            M2 == NewCell(cc.M, LCell(<<s.nf>>))
        IN [M |-> M2, vs |-> <<[d |-> cc.M.n, c |-> cc.id]>>]
 
-Fixed == UNCHANGED <<brs, N, bs, drv, rq, shape, src>>
+Fixed == UNCHANGED <<brs, N, bs, drv, rq, shape, cls, src>>
 ReadBlock ==
   /\ phase = "read" /\ Fixed
   /\ LET k == IF bs = None THEN N - pos ELSE Min(bs, N - pos) IN
@@ -154,7 +157,9 @@ BranchSrc ==
   /\ active' = RemoveAt(active, ind) /\ UNCHANGED <<pos, orig, ind, bst, phase>>
 
 Buffer == IF ~NeedsCopy THEN [M |-> M, vs |-> orig]
-          ELSE IF CopyMode = "shallow" THEN ShallowCopyAll(M, orig) ELSE DeepCopyAll(M, orig)
+          \* "clsshallow": what if the deep copy of a context that is not a plain dict copied its top level only
+          ELSE IF CopyMode = "shallow" \/ (CopyMode = "clsshallow" /\ cls # "dict") THEN ShallowCopyAll(M, orig)
+          ELSE DeepCopyAll(M, orig)
 
 BranchSeq ==
   /\ phase = "branches" /\ ind <= Len(active) /\ brs[active[ind]].end = "seq" /\ Fixed
@@ -265,6 +270,6 @@ SourceByLastOnly == (Done /\ CopyMode = "deep") => \A j \in 1..Len(src) :
       /\ \E b \in 1..Len(brs) : /\ brs[b].end # "src"
                                 /\ LET y == PApplyAll(XS(j, shape), brs[b].muts) IN
                                    StripC(a.c) = StripC(y.c) /\ a.d \in {XS(j, shape).d, y.d}
-Emitted == Done => PrintT(ToJson([brs |-> brs, N |-> N, bs |-> bs, drv |-> drv, rq |-> rq, shape |-> shape, exp |-> Expected,
+Emitted == Done => PrintT(ToJson([brs |-> brs, N |-> N, bs |-> bs, drv |-> drv, rq |-> rq, shape |-> shape, cls |-> cls, exp |-> Expected,
                                   src |-> SrcAfter]))
 =============================================================================
